@@ -14,12 +14,10 @@ import (
 	"encoding/hex"
 	"encoding/json"
 	"fmt"
-	"os"
 	"sort"
 	"strconv"
 	"strings"
 	"testing"
-	"time"
 	"unicode"
 
 	ds "github.com/sealdice/dicescript"
@@ -1090,18 +1088,6 @@ type caseOutcome struct {
 }
 
 func checkCase(c *Case, s *rt.Section) (*rt.Failure, caseOutcome) {
-	if os.Getenv("C14_SLOW") != "" {
-		t0 := time.Now()
-		defer func() {
-			if d := time.Since(t0); d > 100*time.Millisecond {
-				fmt.Printf("SLOW %v %q\n", d, c.Src)
-			}
-		}()
-	}
-	return checkCase1(c, s)
-}
-
-func checkCase1(c *Case, s *rt.Section) (*rt.Failure, caseOutcome) {
 	out := caseOutcome{}
 	src, pr := c.source()
 	c.Src = src
@@ -1145,12 +1131,13 @@ func checkCase1(c *Case, s *rt.Section) (*rt.Failure, caseOutcome) {
 // sessions
 
 type Step struct {
-	Prog *Program `json:"prog,omitempty"`
-	Raw  string   `json:"raw,omitempty"` // a source expected to fail (parse or run-time error)
-	AskA int      `json:"ask_a"`         // how many times VM A asks for the text after this step
-	AskB int      `json:"ask_b"`
-	Set  *VarDef  `json:"set,omitempty"` // variable rebound (through the API, on both VMs) before the step
-	Src  string   `json:"src,omitempty"`
+	Prog  *Program `json:"prog,omitempty"`
+	Raw   string   `json:"raw,omitempty"` // a source expected to fail (parse or run-time error)
+	AskA  int      `json:"ask_a"`         // how many times VM A asks for the text after this step
+	AskB  int      `json:"ask_b"`
+	Split bool     `json:"split,omitempty"` // Parse + RunAfterParsed instead of Run
+	Set   *VarDef  `json:"set,omitempty"`   // variable rebound (through the API, on both VMs) before the step
+	Src   string   `json:"src,omitempty"`
 }
 
 type Session struct {
@@ -1193,14 +1180,23 @@ func checkSession(c *Session, s *rt.Section) (*rt.Failure, []string) {
 			return s.NewFailure(oracle, sig, c, fmt.Sprintf("step %d src %s: %s", i, strconv.Quote(src), observed), expected)
 		}
 		var ea, eb error
-		if pi := rt.Guard(func() { ea = a.Run(src) }); pi != nil {
+		runIt := func(vm *ds.Context) error {
+			if st.Split {
+				if err := vm.Parse(src); err != nil {
+					return err
+				}
+				return vm.RunAfterParsed()
+			}
+			return vm.Run(src)
+		}
+		if pi := rt.Guard(func() { ea = runIt(a) }); pi != nil {
 			if st.Prog == nil {
 				classes = append(classes, "discard:run-panic")
 				return nil, classes
 			}
 			return mk("run", pi.Sig(), "Run panicked: "+pi.Value, "a result"), classes
 		}
-		if pi := rt.Guard(func() { eb = b.Run(src) }); pi != nil {
+		if pi := rt.Guard(func() { eb = runIt(b) }); pi != nil {
 			return mk("run", pi.Sig(), "Run panicked on the twin: "+pi.Value, "a result"), classes
 		}
 		if (ea == nil) != (eb == nil) {
@@ -1208,6 +1204,12 @@ func checkSession(c *Session, s *rt.Section) (*rt.Failure, []string) {
 		}
 		if ea != nil {
 			classes = append(classes, "step-error")
+			// asking for the text of a run that failed must not fail either (no stale spans of the previous program)
+			for k := 0; k < st.AskA; k++ {
+				if pi := rt.Guard(func() { _ = a.GetDetailText() }); pi != nil {
+					return mk("never-fails", "after-error:"+pi.Sig(), "GetDetailText after a failed Run panicked: "+pi.Value, "a string"), classes
+				}
+			}
 			// the generator state must still agree
 			sa, sb := observe(a).seed, observe(b).seed
 			if sa != sb {
@@ -1385,7 +1387,7 @@ func TestProp(t *testing.T) {
 		enumerate(s, run, thorough)
 	})
 
-	sessRule := "2..5 programs (as in expr) run in a row on VM A, which asks for the text 0..3 times after each, and on a twin B with the same seed that asks a different number of times; 12% of the steps fail (d0, 0d6, unbalanced parenthesis) and 15% rebind a variable through Attrs; oracle: the full expr oracle on A whenever it asks (catches a stale cache or stale spans from the previous program), and equal Ret / generator state / variables / text between A and B after every step; non-trivial = at least 2 successful steps with dice, with A and B asking differently before the last; distinct by step list"
+	sessRule := "2..5 programs (as in expr) run in a row on VM A, which asks for the text 0..3 times after each (30% of the steps go through Parse + RunAfterParsed instead of Run), and on a twin B with the same seed that asks a different number of times; 12% of the steps fail (d0, 0d6, unbalanced parenthesis; asking for the text afterwards must not fail) and 15% rebind a variable through Attrs; oracle: the full expr oracle on A whenever it asks (catches a stale cache or stale spans from the previous program), and equal Ret / generator state / variables / text between A and B after every step; non-trivial = at least 2 successful steps with dice, with A and B asking differently before the last; distinct by step list"
 	run.Check("session", 8000, 90000, sessRule, func(t *rapid.T, s *rt.Section) {
 		c := &Session{Seed: drawSeed(t), Vars: drawVars(t, false)}
 		n := rapid.IntRange(2, 5).Draw(t, "nsteps")
@@ -1410,6 +1412,7 @@ func TestProp(t *testing.T) {
 					}
 				}
 			}
+			st.Split = pct(t, 30, "split")
 			st.AskA = pickOf(t, []int{0, 0, 1, 1, 1, 2, 3}, "askA")
 			st.AskB = pickOf(t, []int{0, 0, 0, 1, 2}, "askB")
 			if (st.AskA > 0) != (st.AskB > 0) && st.Raw == "" {
